@@ -33,7 +33,7 @@ Print Assumptions Bridge2_matches_are_c01_satisfying.
 
 (* ... and of the match data Match.v's evaluation computes under any order oracle *)
 Theorem Bridge2_matches_are_c01_link_matches : forall X ord e st b lvl s s' mds,
-  b2_agree e st -> b2_link_ok b = true -> wf_state st -> ok_oracle ord ->
+  b2_agree e st -> b2_link_ok b = true -> wf_state st -> ok_oracle ord -> s_excl st = [] ->
   Setvar.eval_link (b2_op X) e (bl_sv X b) lvl s = (s', mds) ->
   Permutation (map sv_triple mds) (map m_triple (Match.link_matches X ord st (bl_m b))).
 Proof. exact b2_matches_are_link_matches. Qed.
